@@ -60,8 +60,9 @@ RULE = (
 BOUNDS = {
     "quick": {
         "partition": {"n_thetas": [0, 8], "n_chunks": "1..pairs+2"},
-        "assemble": {"n_thetas": [0, 5], "n_chunks": [1, 4], "repeats": 1,
-                     "metrics": ["MSEDistance(sigmoid=True)", "MSEDistance(sigmoid=False)", "symmetric injective stub"],
+        "assemble": {"n_thetas": [0, 5], "n_chunks": "1..4 (4 only for n_thetas >= 3)", "repeats": 1,
+                     "metrics": ["MSEDistance(sigmoid=True)", "MSEDistance(sigmoid=False)",
+                                 "symmetric injective stub (patterns 'all distinct' and 'first two identical' only)"],
                      "patterns": ["all distinct", "first two identical", "last two identical", "first and last identical", "all identical"]},
         "densify": {"n": [0, 4]},
         "metric": {"alphabet": [-1.5, 0.0, 2.0], "length": [1, 3]},
@@ -69,7 +70,7 @@ BOUNDS = {
     },
     "thorough": {
         "partition": {"n_thetas": [0, 20], "n_chunks": "1..pairs+2"},
-        "assemble": {"n_thetas": [0, 6], "n_chunks": [1, 5], "repeats": "2 for n_chunks <= 3, else 1",
+        "assemble": {"n_thetas": [0, 6], "n_chunks": "1..5 (5 only for n_thetas >= 3)", "repeats": "2 for n_chunks <= 3, else 1",
                      "metrics": ["MSEDistance(sigmoid=True)", "MSEDistance(sigmoid=False)", "symmetric injective stub"],
                      "patterns": ["all distinct", "first two identical", "last two identical", "first and last identical", "all identical"]},
         "densify": {"n": [0, 5]},
@@ -711,9 +712,13 @@ def plan(tier, seed):
     for n in range(0, t["asm_n"] + 1):
         for metric in METRICS:
             for pname, groups in patterns_for(n):
+                if tier == "quick" and metric == "pair-stub" and pname not in ("distinct", "first-two-identical"):
+                    continue  # quick tier: the stub metric only where it adds sensitivity
                 light = [c for c in range(1, t["asm_chunks"] + 1) if c <= 3]
                 items.append({"kind": "assemble", "n": n, "metric": metric, "pattern": pname, "groups": groups, "chunks": light})
                 for c in range(4, t["asm_chunks"] + 1):
+                    if n <= 2 and (c >= 5 or tier == "quick"):
+                        continue  # at most one pair: nothing but empty chunk files to permute (covered by smaller n_chunks)
                     firsts = [None] if c < 5 else list(range(c + 1))  # split the big trees by the repeated chunk
                     for first in firsts:
                         items.append({"kind": "assemble", "n": n, "metric": metric, "pattern": pname, "groups": groups,
